@@ -293,3 +293,16 @@ def builder_obj(repo, name='builder', **fields):
         b.f[k] = v
         b.missing.discard(k)
     return b
+
+
+def fs_extcalls(isfile=lambda p: True, cwd='/cwd'):
+    """stand-ins for the pure path functions of os / os.path (POSIX flavour) and the file tests, for evaluated tables that feed file names
+    to the code under analysis; `isfile` decides which normalised paths exist"""
+    import posixpath
+
+    def absn(x):
+        return posixpath.normpath(posixpath.join(cwd, str(x)))
+    return {'os.path.expanduser': lambda x: x, 'os.path.isfile': lambda x: bool(isfile(absn(x))), 'os.path.exists': lambda x: bool(isfile(absn(x))),
+            'os.path.abspath': absn, 'os.path.realpath': absn, 'os.path.normpath': posixpath.normpath, 'os.path.normcase': lambda x: x,
+            'os.fspath': lambda x: str(x), 'os.getcwd': lambda: cwd, 'os.path.join': posixpath.join, 'os.path.dirname': posixpath.dirname,
+            'os.path.isabs': posixpath.isabs, 'os.path.basename': posixpath.basename, 'os.path.splitext': posixpath.splitext, 'os.path.samefile': lambda a, b: absn(a) == absn(b)}
